@@ -6,7 +6,7 @@
      names_distinct c w   the names directly under the layers directory are pairwise distinct
      paths_distinct w     the file tree has one entry per path (LC.wf)
      cfg_ok c             layers / exports directories are clean absolute paths, neither inside the
-                          other; buildroot, workdir, upperdir, export sub-directories are relative
+                          other; the base directory is clean absolute and not inside the layers directory; buildroot, workdir, upperdir, export sub-directories are relative
                           paths of plain components
      fs_ok c f            every path is clean absolute, every entry's parent is a directory entry,
                           no <layers>/<x>/layerconfig is a symbolic link
@@ -38,11 +38,11 @@ Proof. exact breaking_refused_view. Qed.
 Print Assumptions C02_breaking_refused.
 
 (* (c) the forest stays a forest.  In scope ([in_scope e cmd res]):
-     - add, rebase, remove, mkdirs, umount, shake, probe and the hand-made kernel mounts: at EVERY exit
+     - init, add, rebase, remove, mkdirs, umount, shake, probe and the hand-made kernel mounts: at EVERY exit
        (success, refusal, injected failure, crash at any operation) in every environment;
      - rename: when it reports success;
      - every command in pretend mode.
-   Out of scope: init, mount, chroot with operations carried out; rename that stops half way (refuted
+   Out of scope: mount, chroot with operations carried out; rename that stops half way (refuted
    below).
    FULL STATEMENT (false of the model, see C02_forest_preserved_refuted):
      forall cfg w e cmd um, <hypotheses> ->
@@ -81,7 +81,7 @@ Print Assumptions C02_frame.
 
 (* pretend mode leaves the file tree exactly as it is, for every command *)
 Theorem C02_pretend_fs_unchanged : forall cfg w e cmd um,
-  cfg_ok cfg = true -> names_distinct cfg w = true -> e_pretend e = true ->
+  names_distinct cfg w = true -> e_pretend e = true ->
   wo_fs (v_after (view_of_model cfg w e cmd um)) = wo_fs w.
 Proof. exact pretend_fs_unchanged_view. Qed.
 Print Assumptions C02_pretend_fs_unchanged.
